@@ -123,7 +123,7 @@ CMP = {
     "C10": {"modes": ["pairs"], "mc": {"quick": LAWS, "thorough": LAWS},
             "rule": "the pair events of C02 (score both orders, candidate both orders, windows / numeric windows / index windows of the left operand); the laws are theorems of the spec on complete small domains (MC) and are re-checked on the recorded values. non-trivial = candidate pairs",
             "nontrivial": ("cmp", "candidate_pairs")},
-    "C17": {"modes": ["reuse"], "mc": {"quick": [("target", "MCTarget.tla", "MCTarget.cfg")], "thorough": [("target", "MCTarget.tla", "MCTarget.cfg")]},
+    "C17": {"modes": ["reuse"], "gen_direction": True, "mc": {"quick": [("target", "MCTarget.tla", "MCTarget.cfg")], "thorough": [("target", "MCTarget.tla", "MCTarget.cfg")]},
             "rule": "histories of init_from / From / clear over pools of hashes of differing lengths and alphabets (empty, shorter, reversed, superset), observed after every step: is_valid, full_eq(fresh), is_equiv / compare / candidate against every pool member, all 64 masks; plus the clustering loop (one target re-initialised thousands of times). non-trivial = re-initialisation steps",
             "nontrivial": ("reuse", "steps")},
     "C20": {"modes": ["tables"], "mc": {"quick": LAWS[:1], "thorough": LAWS[:1]},
@@ -140,6 +140,65 @@ def _cmp_violation(v, r, cache):
     v.violation(what, {"family": "cmp", "property": v.pid, "events": unit[-40:] if evs[k - 1]["ev"] not in ("tobs", "pobs") else unit, "offending_event": evs[k - 1], "spec": r["mismatch"][:1]})
 
 
+def spec_generated_traces(binp, pid, tier, module, cfg, family, num, prologue, as_event):
+    """The spec -> code direction: TLC (-simulate) walks a generator specification and prints each
+    behaviour as JSON; the harness replays the calls on real objects and records what it observes;
+    the caller validates those traces like any other.  Returns (trace files, statistics)."""
+    name = module[:-4].lower()
+    r = run_mc(name, module, cfg, simulate="num=%d -depth 48" % num, workers=1, keep_output=True)
+    beh = []
+    for l in r["output"].splitlines():
+        if l.startswith('"REPLAY '):
+            beh.append(json.loads(l.strip()[1:-1][len("REPLAY "):].replace('\\"', '"').replace("\\\\", "\\")))
+    if len(beh) < num:
+        raise ToolError("%s produced %d behaviours, expected %d" % (module, len(beh), num))
+    out = fresh_dir("tr_%s_%s" % (pid, name))
+    files = []
+    ncalls = 0
+    kinds = set()
+    for i in range(TV_PAR):
+        inp = os.path.join(out, "in_%02d.ndjson" % i)
+        with open(inp, "w") as f:
+            for b in beh[i::TV_PAR]:
+                for k, e in enumerate(prologue):
+                    f.write(json.dumps(dict(e, unit=1) if k == 0 else e) + "\n")
+                for e in b:
+                    e = as_event(e)
+                    f.write(json.dumps(e) + "\n")
+                    ncalls += 1
+                    kinds.add(e.get("op") or e["ev"])
+        od = os.path.join(out, "o%02d" % i)
+        run_harness(binp, ["replay", family, inp, "--out", od])
+        fs = [x for x in sorted(glob.glob(os.path.join(od, "*.ndjson"))) if os.path.getsize(x) > 0]
+        if not fs:
+            raise ToolError("the replay of spec-generated behaviours produced no events")
+        files += fs
+    return files, {"generator": module, "behaviours": len(beh), "calls": ncalls, "distinct_call_kinds": len(kinds), "states_generated_by_tlc": r.get("generated", 0)}
+
+
+def gen_obj_behaviours(binp, pid, tier):
+    """C11 / C15: the object slot machine (GenObj.tla)"""
+    import re, subprocess
+    # the operation table of the generator specification must be the harness's
+    p = subprocess.run([binp, "obj", "optable"], stdout=subprocess.PIPE, stderr=subprocess.PIPE, text=True)
+    if p.returncode != 0:
+        raise ToolError("harness obj optable failed")
+    impl_ops = [tuple(x) for x in json.loads(p.stdout)]
+    text = open(os.path.join(SPEC, "GenObj.tla")).read()
+    body = text[text.index("Ops == <<"):text.index("(* ---- the pool")]
+    spec_ops = [tuple(m) for m in re.findall(r'<<"([a-z_]+)", "([A-Z]{2})", "([A-Z]{2})">>', body)]
+    if impl_ops != spec_ops:
+        raise ToolError("GenObj.tla Ops differs from the harness's OPS table (%d vs %d entries)" % (len(spec_ops), len(impl_ops)))
+    return spec_generated_traces(binp, pid, tier, "GenObj.tla", "GenObj.cfg", "obj", 300 if tier == "quick" else 6000,
+                                 [{"ev": "hnew"}], lambda e: dict(e, ev="op"))
+
+
+def gen_target_behaviours(binp, pid, tier):
+    """C17: the reusable target and position array (GenTarget.tla)"""
+    return spec_generated_traces(binp, pid, tier, "GenTarget.tla", "GenTarget.cfg", "cmp", 200 if tier == "quick" else 4000,
+                                 [{"ev": "tnew"}, {"ev": "pnew"}], lambda e: e)
+
+
 def check_cmp(pid, tier):
     v = Verdict(pid, tier)
     cfgp = CMP[pid]
@@ -152,8 +211,13 @@ def check_cmp(pid, tier):
         files += sorted(glob.glob(os.path.join(out, "*.ndjson")))
     for name, mod, cfg in cfgp["mc"][tier]:
         v.add_mc(run_mc(name, mod, cfg))
+    gen_stats = None
+    if cfgp.get("gen_direction"):
+        gfiles, gen_stats = gen_target_behaviours(binp, pid, tier)
+        files = gfiles if os.environ.get("VERIF_ONLY_SPEC_GENERATED") else files + gfiles   # (the env switch is for demonstrations)
+        v.cov["spec_generated"] = gen_stats
     res = run_tv("TraceCmp.tla", "TraceCmp.cfg", files, timeout=3000)
-    v.add_tv("TraceCmp:" + "+".join(cfgp["modes"]), res)
+    v.add_tv("TraceCmp:" + "+".join(cfgp["modes"]) + ("+spec-generated" if gen_stats else ""), res)
     cache = {}
     for r in res:
         if not r["accepted"]:
@@ -245,7 +309,7 @@ def check_family(pid, tier, table, fam, module, cfg, violation):
     gen_stats = None
     if cfgp.get("gen_direction"):
         gfiles, gen_stats = gen_obj_behaviours(binp, pid, tier)
-        files += gfiles
+        files = gfiles if os.environ.get("VERIF_ONLY_SPEC_GENERATED") else files + gfiles   # (the env switch is for demonstrations)
     res = run_tv(module, cfg, files, timeout=3000)
     v.add_tv(module + ":" + "+".join(cfgp["modes"]) + ("+spec-generated" if gen_stats else ""), res)
     if gen_stats:
@@ -264,52 +328,6 @@ def check_family(pid, tier, table, fam, module, cfg, violation):
     v.cov["samples"] = [json.dumps(e)[:500] for e in evs[:3]]
     v.assumptions = ["TLC/SANY 1.8.0, CommunityModules", "Text.tla / BlockHash.tla / Order.tla / Dual.tla transcribe the property statements (grammar, run collapsing, documented order, RLE canonical form)", "the harness only serialises what the API returned"]
     return v.finish()
-
-
-def gen_obj_behaviours(binp, pid, tier):
-    """The other direction of the binding (C11 / C15): TLC walks the object slot machine itself
-    (GenObj.tla, -simulate), each behaviour is replayed on real objects by the harness, and the
-    recorded trace goes through the same validation as the driver's own histories."""
-    import re, subprocess
-    # the operation table of the generator specification must be the harness's
-    p = subprocess.run([binp, "obj", "optable"], stdout=subprocess.PIPE, stderr=subprocess.PIPE, text=True)
-    if p.returncode != 0:
-        raise ToolError("harness obj optable failed")
-    impl_ops = [tuple(x) for x in json.loads(p.stdout)]
-    text = open(os.path.join(SPEC, "GenObj.tla")).read()
-    body = text[text.index("Ops == <<"):text.index("(* ---- the pool")]
-    spec_ops = [tuple(m) for m in re.findall(r'<<"([a-z_]+)", "([A-Z]{2})", "([A-Z]{2})">>', body)]
-    if impl_ops != spec_ops:
-        raise ToolError("GenObj.tla Ops differs from the harness's OPS table (%d vs %d entries)" % (len(spec_ops), len(impl_ops)))
-    num = 300 if tier == "quick" else 6000
-    r = run_mc("genobj", "GenObj.tla", "GenObj.cfg", simulate="num=%d -depth 40" % num, workers=1, keep_output=True)
-    beh = []
-    for l in r["output"].splitlines():
-        if l.startswith('"REPLAY '):
-            beh.append(json.loads(l.strip()[1:-1][len("REPLAY "):].replace('\\"', '"').replace("\\\\", "\\")))
-    if len(beh) < num:
-        raise ToolError("GenObj produced %d behaviours, expected %d" % (len(beh), num))
-    out = fresh_dir("tr_%s_genobj" % pid)
-    nsh = TV_PAR
-    files = []
-    nops = 0
-    kinds = set()
-    for i in range(nsh):
-        inp = os.path.join(out, "in_%02d.ndjson" % i)
-        with open(inp, "w") as f:
-            for b in beh[i::nsh]:
-                f.write(json.dumps({"ev": "hnew", "unit": 1}) + "\n")
-                for e in b:
-                    f.write(json.dumps(dict(e, ev="op")) + "\n")
-                    nops += 1
-                    kinds.add(e["op"])
-        od = os.path.join(out, "o%02d" % i)
-        run_harness(binp, ["replay", "obj", inp, "--out", od])
-        fs = [x for x in sorted(glob.glob(os.path.join(od, "*.ndjson"))) if os.path.getsize(x) > 0]
-        if not fs:
-            raise ToolError("the replay of spec-generated behaviours produced no events")
-        files += fs
-    return files, {"behaviours": len(beh), "operations": nops, "distinct_operation_kinds": len(kinds), "states_generated_by_tlc": r.get("generated", 0)}
 
 
 def check_obj(pid, tier):
